@@ -738,6 +738,17 @@ Definition inst_of (m : mode) (ps : list param) (shell : str) (d : desc) : inst 
      i_script := script_text shell cmd4;
      i_rscript := match rst3 with [] => None | _ => Some (script_text shell rst3) end |}.
 
+(** The specification of a script's command text, pass by pass: [x0] is the
+    text as written in the specification for the step of [d]. *)
+Definition spec_field (c : case) (d : desc) (x0 : str) : str :=
+  let x := env_pass Spec (env_build (c_env c)) x0 in
+  match d_row d with
+  | None => x
+  | Some i => param_pass Spec (c_params c) i x
+  end.
+Definition spec_text (c : case) (d : desc) (x0 : str) : str :=
+  rec_pass Spec d (ws_pass Spec d (spec_field c d x0)).
+
 Inductive outcome : Type :=
 | Raised                        (* staging raised an exception *)
 | Staged (insts : list inst).
